@@ -20,9 +20,11 @@ PINS = [('plasTeX/Base/LaTeX/Arrays.py', 'Array.invoke'), ('plasTeX/Base/LaTeX/A
 RULE = ('abstract documents (Spec/TableSpec.v content): tabular/array with 1-5 columns, 1-6 rows, column specifications with | p{} @{} >{} '
         '*{n}{} and blanks, \\multicolumn with its own specification, \\hline/\\cline before rows, after the last row and in border-only rows, '
         'empty cells and rows, cells with groups, mathematics, declarations (\\bfseries ...), paragraphs, nested tabulars and lists; '
-        'itemize/enumerate/description nested to depth 4 with multi-paragraph items, terms, groups, mathematics and nested tabulars; '
+        'itemize/enumerate/description nested to depth 4 with multi-paragraph items, terms, groups, mathematics and nested tabulars, and with '
+        'blank material (blank line, several blank lines, \\par, comment line, line break) between \\begin{..} -- or its optional argument -- and '
+        'the first \\item at every depth; '
         'printed to LaTeX for the implementation and to the item stream by the Model. Exhaustive: every 3-column row shape x every rule before/'
-        'after it; every list nesting shape up to 6 items; column specifications over a 7-symbol alphabet up to length 4. Malformed: raw item '
+        'after it; every list nesting shape up to 6 items, each also with blank material before the first \\item of every list; column specifications over a 7-symbol alphabet up to length 4. Malformed: raw item '
         'streams (printed documents with items deleted, duplicated, swapped, depths changed) digested directly by both sides; random '
         'column-specification strings. Non-trivial = at least two cells / two items / two column letters.')
 TRUSTED = ['modelled, not verified: the expansion of the source into the item stream (TeX.__iter__, Context.push/pop depth bookkeeping, '
@@ -49,7 +51,39 @@ def S(s):
 #   ['c', ch] ['s'] ['p'] ['h'] ['cl', a, b] ['mc', n, spec, text] ['g', body] ['m', body] ['d', i, body]
 #   ['t', ak, spec, rows]   rows: list of rows, row: list of cells, cell: list of content
 #   ['l', lk, items]        item: [term or None, body]
+#   ['l', lk, items, pre, opt]   pre: index into PRE_LAYOUTS (what is written between \begin{..} and the first \item),
+#                                opt: an optional argument after \begin{enumerate}
 # spec: list of ['col', ch] ['arg', ch, text] ['bar'] ['at', text] ['gt', text] ['bl'] ['star', digits, spec]
+
+# what may be written between \\begin{itemize|enumerate|description} and the first \\item (blank material: LaTeX ignores it there):
+# (source text, blank tokens it expands to -- 0 a blank, 1 a \\par -- , the same after \\begin{enumerate} without optional argument,
+# whose argument parser has already skipped the blanks).  The token lists are checked on every case: the stream the Model prints
+# from them is compared with the stream the implementation expands the source to.
+PRE_LAYOUTS = [('', [], []),
+               ('\n\n', [0, 1], [1]),                 # a blank line
+               ('\\par ', [1], [1]),                  # an explicit \par
+               ('%c\n', [], []),                      # a comment line
+               ('\n%c\n', [0], []),
+               ('\n', [0], []),                       # a line break
+               ('\n\n\n\n', [0, 1], [1]),             # several blank lines
+               ('%c\n\n', [1], [1]),                  # comment, then a blank line
+               ('\\par\\par ', [1, 1], [1, 1]),
+               (' \n\n ', [0, 1], [1]),
+               ('\n\n\\par \n', [0, 1, 1], [1, 1])]
+
+
+def list_pre(c):
+    return c[3] if len(c) > 3 else 0
+
+
+def list_opt(c):
+    return bool(len(c) > 4 and c[4] and c[1] == 1)
+
+
+def pre_tokens(c):
+    lay = PRE_LAYOUTS[list_pre(c)]
+    return lay[2] if (c[1] == 1 and not list_opt(c)) else lay[1]
+
 
 def spec_latex(spec):
     out = []
@@ -112,7 +146,7 @@ def latex(c):
         return ('\\begin{%s}{%s}' % (ARRS[c[1]], spec_latex(c[2])) +
                 '\\\\'.join('&'.join(latex_list(cell) for cell in row) for row in c[3]) + '\\end{%s}' % ARRS[c[1]])
     if k == 'l':
-        return ('\\begin{%s}' % LISTS[c[1]] +
+        return ('\\begin{%s}' % LISTS[c[1]] + ('[i]' if list_opt(c) else '') + PRE_LAYOUTS[list_pre(c)][0] +
                 ''.join(('\\item ' if it[0] is None else '\\item[%s]' % it[0]) + latex_list(it[1]) for it in c[2]) +
                 '\\end{%s}' % LISTS[c[1]])
     raise ValueError(c)
@@ -149,7 +183,7 @@ def wire(c):
     if k == 't':
         return [3, c[1], wire_spec(c[2]), [[[wire(x) for x in cell] for cell in row] for row in c[3]]]
     if k == 'l':
-        return [4, c[1], [[0, [], [wire(x) for x in it[1]]] if it[0] is None else [1, S(it[0]), [wire(x) for x in it[1]]] for it in c[2]]]
+        return [4, c[1], pre_tokens(c), [[0, [], [wire(x) for x in it[1]]] if it[0] is None else [1, S(it[0]), [wire(x) for x in it[1]]] for it in c[2]]]
     raise ValueError(c)
 
 
@@ -206,7 +240,7 @@ def norm(c, in_math=False):
     if k == 'l':
         if in_math:
             return None
-        return ['l', c[1], [[it[0], norm_list(it[1], True)] for it in c[2]]]
+        return ['l', c[1], [[it[0], norm_list(it[1], True)] for it in c[2]]] + list(c[3:])
     if k in ('h', 'cl', 'mc', 'p') and in_math and k == 'p':
         return None
     return c
@@ -251,7 +285,7 @@ def py_print(c, d):
                 out += [x for y in cell for x in py_print(y, d + 2)]
         return out + [leaf([4, 0, c[1]], d)]
     if k == 'l':
-        out = [leaf([3, 1, c[1], []], d + 1)]
+        out = [leaf([3, 1, c[1], []], d + 1)] + [leaf([2] if b else [1], d + 1) for b in pre_tokens(c)]
         for it in c[2]:
             out.append(leaf([12, 0, []] if it[0] is None else [12, 1, S(it[0])], d + 1))
             out += [x for y in it[1] for x in py_print(y, d + 1)]
@@ -482,7 +516,9 @@ def rand_list(rng, depth, small=False):
             elif depth > 0 or rng.random() < 0.3:
                 body.append(rand_table(rng, 0, small=True))
         items.append([term, body])
-    return ['l', lk, items]
+    # blank line / \par / comment / line breaks before the first \item, at every depth; sometimes after an optional argument
+    pre = rng.randrange(1, len(PRE_LAYOUTS)) if rng.random() < 0.4 else 0
+    return ['l', lk, items, pre, lk == 1 and rng.random() < 0.3]
 
 
 def enum_border_tables():
@@ -530,9 +566,25 @@ def enum_lists(budget):
                     body = [['c', 'a']] + ([['l', 0, inner]] if inner is not None else [])
                     out.append([[None, body]] + rest)
         return out
+    def with_layout(l, j, opt):
+        # the same layout before the first item of the list and of every nested list
+        return ['l', l[1], [[t, [with_layout(x, j + 1, opt) if x[0] == 'l' else x for x in b]] for t, b in l[2]],
+                1 + j % (len(PRE_LAYOUTS) - 1), opt]
+    count = 0
     for n in range(0, budget + 1):
         for its in lists(n, 3):
-            yield ['l', n % 3, [[('T' if n % 3 == 2 else None), b] for _, b in its]]
+            l = ['l', n % 3, [[('T' if n % 3 == 2 else None), b] for _, b in its]]
+            yield l
+            # every shape again with blank material before the first \item at every depth (layouts rotate with shape and depth)
+            yield with_layout(l, count, False)
+            if n % 3 == 1:
+                yield with_layout(l, count + 3, True)
+            count += 1
+    for lk in range(3):
+        for j in range(1, len(PRE_LAYOUTS)):
+            for opt in ([False, True] if lk == 1 else [False]):
+                inner = ['l', (lk + 1) % 3, [[None, [['c', 'b']]], [None, [['c', 'c']]]], j, opt]
+                yield ['l', lk, [[('T' if lk == 2 else None), [['c', 'a'], inner]], [('U' if lk == 2 else None), [['c', 'd']]]], j, opt]
 
 
 SPEC_ALPHABET = ['l', 'c', '|', '@{}', '*{2}{l|}', 'p{1cm}', ' ']
@@ -685,15 +737,19 @@ def kind_of_node(n):
     return [15, 0]
 
 
-def canon_node(n):
-    """[kind, array-info, children]: paragraphs are transparent, text is split into characters"""
+def canon_node(n, strict=False, under_list=False):
+    """[kind, array-info, children]: paragraphs are transparent, text is split into characters.
+    strict (documents): the children of a list node are observed as they are -- a paragraph wrapped around the items of a list is
+    not looked through (the items must be the children of the list; Macro.paragraphs never runs on a list that holds only items)."""
     from plasTeX.Base.LaTeX.Arrays import Array
     if n.nodeType != 1:
         return [[[1] if ch.isspace() else [0, ord(ch)], [], []] for ch in P(n)]
     k = kind_of_node(n)
     if k[0] == 2:
-        return [x for c in n.childNodes for x in canon_node(c)]
-    kids = [] if k[0] == 11 else [x for c in n.childNodes for x in canon_node(c)]
+        inner = [x for c in n.childNodes for x in canon_node(c, strict)]
+        return [[[2], [], inner]] if (strict and under_list) else inner
+    is_list = k[0] == 3 and k[1] == 1
+    kids = [] if k[0] == 11 else [x for c in n.childNodes for x in canon_node(c, strict, is_list)]
     info = []
     if isinstance(n, Array) and k[0] == 3:
         rows = []
@@ -733,7 +789,7 @@ def impl_doc(case):
     tex.parse()
     for it in rec:
         it[0] -= base
-    top = [x for c in doc.childNodes for x in canon_node(c)]
+    top = [x for c in doc.childNodes for x in canon_node(c, strict=True)]
     return [0, rec, top]
 
 
@@ -1085,6 +1141,30 @@ def depth_of(c):
     return 0
 
 
+def lists_with_pre(c, depth=1):
+    """nesting depths of the lists that have blank material before their first \\item"""
+    k = c[0]
+    out = []
+    if k in ('g', 'm'):
+        for x in c[1]:
+            out += lists_with_pre(x, depth)
+    elif k == 'd':
+        for x in c[2]:
+            out += lists_with_pre(x, depth)
+    elif k == 't':
+        for row in c[3]:
+            for cell in row:
+                for x in cell:
+                    out += lists_with_pre(x, depth)
+    elif k == 'l':
+        if list_pre(c):
+            out.append(depth)
+        for it in c[2]:
+            for x in it[1]:
+                out += lists_with_pre(x, depth + 1)
+    return out
+
+
 def nontrivial(case, io):
     if case['kind'] == 'doc':
         d = case['doc']
@@ -1111,6 +1191,10 @@ def tags(case, io):
                           ('p-column', 'p{'), ('declaration', '\\bfseries'), ('math', '$'), ('par', '\\par'), ('term', '\\item[')):
             if pat in txt:
                 t.append('has-' + name)
+        pres = lists_with_pre(d)
+        if pres:
+            t.append('blank-before-first-item')
+            t.append('blank-before-first-item-depth=%d' % min(max(pres), 4))
         if d[0] == 't':
             t.append('rows=%d' % min(len(d[3]), 7))
     return t
@@ -1182,11 +1266,18 @@ def shrink(case):
                     yield ['t', c[1], c[2][:i] + c[2][i + 1:], rows]
         elif k == 'l':
             its = c[2]
+            ext = list(c[3:])
+            if list_pre(c) or list_opt(c):
+                yield ['l', c[1], its]
+                if list_opt(c):
+                    yield ['l', c[1], its, list_pre(c), False]
+                if list_pre(c) > 1:
+                    yield ['l', c[1], its, 1, list_opt(c)]
             for i in range(len(its)):
-                yield ['l', c[1], its[:i] + its[i + 1:]]
+                yield ['l', c[1], its[:i] + its[i + 1:]] + ext
             for i, it in enumerate(its):
                 for s in subs_list(it[1]):
-                    yield ['l', c[1], its[:i] + [[it[0], s]] + its[i + 1:]]
+                    yield ['l', c[1], its[:i] + [[it[0], s]] + its[i + 1:]] + ext
         elif k == 'mc' and c[1] > 1:
             yield ['mc', c[1], [['col', 'c']], 'x']
     for s in subs(case['doc']):
